@@ -49,7 +49,9 @@ func init() {
 		Rule: "2 charts x 2 generated keys (RSA-2048, ECDSA-P256; fixed-seed generation) signed through Signatory.ClearSign. Per (chart,key) pair, structured families: " +
 			"unmodified (ClearSign output and time-pinned re-signature), missing provenance, 5 renamed/moved archives (by copy) and 5 renames through symbolic links " +
 			"(archive linked; archive and provenance linked; to another name or to the own name in another directory), 12 tamper-class representatives, every other pair's provenance (also with the archive renamed to match), " +
-			"text/armor splices, keyrings holding the signer's key with its revocation signature (alone / with the other key) and a provenance signed by the signer's encryption-only subkey, " +
+			"text/armor splices, helm dependency update --verify (downloader.Manager.Update, VerifyAlways, loopback HTTP repository) on a parent with 2 repository dependencies in both orders, " +
+			"each position valid / archive bit flipped / provenance text bit flipped / provenance missing (16 x 2, plus all-valid under an untrusting keyring), signing by user id (helm package --sign --key) from a secret keyring with two keys whose ids overlap (2 keyring orders x 4 requested ids), " +
+			"keyrings holding the signer's key with its revocation signature (alone / with the other key) and a provenance signed by the signer's encryption-only subkey, " +
 			"an archive longer than loader.MaxDecompressedChartSize (8 cases: unmodified, bit flips before/after the limit and in the last byte, truncation to the limit and by one byte, 1 B / 4 KiB appended), " +
 			"content-differs-per-open cases (archive and provenance behind named pipes whose k-th open yields the k-th of two contents: 22 sequences of " +
 			"genuine / forged-unsigned / forged-signed-by-the-other-key provenance and original / tampered archive, keyrings signer and other+signer, the 4 entry points taking a local path; " +
@@ -80,7 +82,7 @@ func init() {
 		RequiredFloors: []string{"real-clearsign-roundtrip", "accept-baseline", "accept-noop-mutant", "reject-no-block", "reject-bad-signature",
 			"reject-unknown-key", "reject-digest-mismatch", "reject-no-entry", "reject-no-prov", "download-verifyalways-error", "accept-in-subdir",
 			"ring-rewrite:accept-then-reject", "ring-rewrite:reject-then-accept", "ring-rewrite:reject-then-reject", "ring-copy:accept-then-accept", "ring-copy:reject-then-reject",
-			"ring-trust-revoked-rejected", "ring-trust-subkey-rejected", "large-archive-accept", "large-archive-tail-change-rejected",
+			"sign-by-name-verified-with-named-key-only", "dep-update-error-on-invalid", "dep-update-error-when-only-first-invalid", "dep-update-ok-all-valid", "ring-trust-revoked-rejected", "ring-trust-subkey-rejected", "large-archive-accept", "large-archive-tail-change-rejected",
 			"reopen-accept", "reopen-reject-digest-mismatch", "reopen-reject-file-never-read", "reopen-one-open-per-file"},
 	})
 }
@@ -124,6 +126,8 @@ type caseIn struct {
 	LinkTarget string `json:"link_target,omitempty"`
 	// Entries restricts the entry points to run (empty = all).
 	Entries []string `json:"entries,omitempty"`
+	// Deps (family dep-update): the repository dependencies served to Manager.Update.
+	Deps []depItem `json:"deps,omitempty"`
 	// LoaderLimit > 0: loader.MaxDecompressedChartSize is set to it while the case runs.
 	LoaderLimit int64 `json:"loader_limit,omitempty"`
 	// ProvSeq/ArchSeq (family reopen): the k-th open of the provenance / archive
@@ -631,6 +635,15 @@ func replay(c *core.Ctx, data json.RawMessage) []core.Violation {
 	if err := json.Unmarshal(data, &ci); err != nil {
 		return nil
 	}
+	if ci.Family == "sign-by-name" {
+		order, id, _ := strings.Cut(ci.Region, "|")
+		dir, err := os.MkdirTemp("/var/tmp", "c17-")
+		if err != nil {
+			return nil
+		}
+		_, vs := runSignByName(dir, order, id)
+		return vs
+	}
 	if ci.Family == "fixture" {
 		root, err := os.MkdirTemp("/var/tmp", "c17-")
 		if err != nil {
@@ -652,6 +665,10 @@ func replay(c *core.Ctx, data json.RawMessage) []core.Violation {
 	defer e.close()
 	if len(ci.ProvSeq) > 0 {
 		_, vs, _ := e.execReopen(&ci, 0)
+		return vs
+	}
+	if len(ci.Deps) > 0 {
+		_, vs := e.execDepUpdate(&ci, 0)
 		return vs
 	}
 	if len(ci.Steps) > 0 {
@@ -781,6 +798,12 @@ func run(c *core.Ctx) {
 	}
 
 	x.sentinels()
+	if x.want("sign-by-name") {
+		x.signByName()
+	}
+	if x.want("dep-update") {
+		x.depUpdate()
+	}
 	x.structured()
 	for pi := range f.pairs {
 		for _, ri := range bulkRings {
